@@ -394,6 +394,18 @@ def step (s : State) (toks : List String) : State × String :=
     else (s, "bad-op")
   -- `tlsnet <z> <type> <sender> <value>`: server z sends the frame through its own server over a TLS connection set up
   -- with ITS key (the receiving router checked the announced identity against the proved key): connection z
+  -- `tlsbyz <k> <a> <type> <sender> <value>`: a peer that proves the key of member k announces the identity of member a:
+  -- refused unless they are the same; then the frame is stamped with the proved identity
+  | ["tlsbyz", k, a, t, snd, v] =>
+    match t.toNat?, optNat snd, v.toNat?, k.toNat?, a.toNat? with
+    | some t, some snd, some v, some k, some a =>
+      match receiveServerIdentity (some k) a with
+      | some i =>
+        let f : Frame := { ty := t, sender := snd, claimed := none, val := v }
+        let r := opStep s.inst s.st (.msg (arrive 0 id (Arrival.conn i f)))
+        ({ s with st := r.1 }, showDel r.2)
+      | none => (s, "refused")
+    | _, _, _, _, _ => (s, "bad-op")
   | ["tlsnet", z, t, snd, v] =>
     match t.toNat?, optNat snd, v.toNat?, z.toNat? with
     | some t, some snd, some v, some k =>
